@@ -79,13 +79,6 @@ theorem Src_arrangements (k : Ctx) (n : Ex) :
   ⟨constants_type_agree k n, restate_type_agree k n, inverse_type_agree k n, df_type_agree k n, vm_type_agree k n,
     bm_type_agree k n⟩
 
-/-- **Source tie, term extraction (C16, and the classifiers that call it).** `util.get_term_ex` as
-translated from the live source is the model's `getTermEx`; the flag is the parent test
-`isinstance(node.parent, PowerExpression)` read off the position. -/
-theorem Src_get_term_ex (k : Ctx) (e : Ex) :
-    get_term_ex (some ⟨k, e⟩) = getTermEx (parentIs .pow k) e :=
-  get_term_ex_agree (some ⟨k, e⟩)
-
 /-! non-vacuity: the translated classifier accepts `2 + (3 + x)` at the root (chained right) -/
 example : (ConstantsSimplifyRule_get_type
       (some ⟨[], .bin 1 .add (.const 2 2) (.bin 3 .add (.const 4 3) (.var 5 'x'))⟩)).map (·.1)
